@@ -595,6 +595,9 @@ class Subst(Family):
  <xs:element name="m2" type="s:M2" substitutionGroup="s:m1"/>
  <xs:element name="ab" type="s:HT" abstract="true" substitutionGroup="s:head"/>
  <xs:element name="blocked" type="s:HT" block="substitution"/>
+ <xs:element name="noext" type="s:HT" block="extension"/>
+ <xs:element name="ne1" type="s:M1" substitutionGroup="s:noext"/>
+ <xs:element name="ne0" type="s:HT" substitutionGroup="s:noext"/>
  <xs:element name="bm" type="s:HT" substitutionGroup="s:blocked"/>
  <xs:complexType name="HT"><xs:sequence><xs:element name="v" type="xs:int" minOccurs="0"/></xs:sequence></xs:complexType>
  <xs:complexType name="M1"><xs:complexContent><xs:extension base="s:HT">
@@ -605,6 +608,7 @@ class Subst(Family):
   <xs:complexType><xs:sequence>
     <xs:element ref="s:head" minOccurs="0" maxOccurs="unbounded"/>
     <xs:element ref="s:blocked" minOccurs="0" maxOccurs="2"/>
+    <xs:element ref="s:noext" minOccurs="0" maxOccurs="unbounded"/>
   </xs:sequence></xs:complexType>
  </xs:element>
 </xs:schema>'''}
@@ -625,6 +629,10 @@ class Subst(Family):
         out.append(Doc('sg-bad-int', self._doc([pool[1], '<s:m1><s:v>one</s:v></s:m1>', pool[3]]),
                        'fault:lexical'))
         out.append(Doc('sg-unknown', self._doc([pool[0], '<s:zzz/>']), 'fault:structure'))
+        # a member whose type is an EXTENSION of the head's type, where the head blocks extensions: a rule the
+        # parent model applies, not the member's own declaration
+        out.append(Doc('sg-valid-noext', self._doc([pool[0], '<s:noext><s:v>1</s:v></s:noext>', '<s:ne0/>'])))
+        out.append(Doc('sg-noext-extension-member', self._doc([pool[1], '<s:ne1 m="true"/>', '<s:ne0/>']), 'fault:blocked'))
         out.append(Doc('sg-order', self._doc(['<s:blocked/>', pool[0]]), 'fault:structure'))
         return out
 
@@ -1536,7 +1544,11 @@ class Simple(Family):
  <xs:simpleType name="Td"><xs:restriction base="xs:decimal"><xs:totalDigits value="5"/><xs:fractionDigits value="2"/>
   </xs:restriction></xs:simpleType>
  <xs:simpleType name="Ints"><xs:list itemType="xs:int"/></xs:simpleType>
- <xs:simpleType name="Un"><xs:union memberTypes="xs:int xs:date"/></xs:simpleType>{types11}
+ <xs:simpleType name="Un"><xs:union memberTypes="xs:int xs:date"/></xs:simpleType>
+ <xs:simpleType name="Un2"><xs:union memberTypes="xs:int xs:token"/></xs:simpleType>
+ <xs:simpleType name="IntOrInts"><xs:union memberTypes="xs:int Ints"/></xs:simpleType>
+ <xs:simpleType name="EnU"><xs:restriction base="IntOrInts"><xs:enumeration value="1"/><xs:enumeration value="2 3"/>
+  </xs:restriction></xs:simpleType>{types11}
  <xs:element name="root">
   <xs:complexType><xs:sequence>
    <xs:element name="en" type="En"/><xs:element name="den" type="Den"/><xs:element name="fen" type="Fen"/>
@@ -1544,7 +1556,10 @@ class Simple(Family):
    <xs:element name="tm" type="xs:time"/><xs:element name="fl" type="xs:float"/><xs:element name="td" type="Td"/>
    <xs:element name="lst" type="Ints"/><xs:element name="un" type="Un" maxOccurs="2"/>
    <xs:element name="qn" type="xs:QName"/><xs:element name="hx" type="xs:hexBinary"/>
-   <xs:element name="bo" type="xs:boolean"/>{alt}
+   <xs:element name="bo" type="xs:boolean"/>
+   <xs:element name="tok" type="xs:token" minOccurs="0"/><xs:element name="lang" type="xs:language" minOccurs="0"/>
+   <xs:element name="un2" type="Un2" minOccurs="0" maxOccurs="unbounded"/>
+   <xs:element name="enu" type="EnU" minOccurs="0" maxOccurs="unbounded"/>{alt}
   </xs:sequence><xs:attribute name="n" type="xs:positiveInteger"/></xs:complexType>
  </xs:element>
 </xs:schema>"""}
@@ -1562,6 +1577,14 @@ class Simple(Family):
             Doc('si-bad-enum', self._doc(en='7'), 'fault:lexical'),
             Doc('si-bad-list', self._doc(lst='1 x 3'), 'fault:lexical'),
             Doc('si-bad-union', self._doc(un2='neither'), 'fault:lexical'),
+            # values of collapse / replace types with padding (what is decoded must not depend on the mode)
+            Doc('si-valid-padded', self._doc('<tok>\n   a   b\n  </tok><lang> en </lang>')),
+            # a union whose members' lexical spaces overlap: text first, numbers later
+            Doc('si-valid-un2-text', self._doc('<un2>abc</un2><un2>x y</un2>')),
+            Doc('si-valid-un2-num', self._doc('<un2>7</un2><un2>07</un2><un2>abc</un2><un2>+7</un2>')),
+            # an enumeration over a union with a list member: the decoded value may be a list
+            Doc('si-valid-enu', self._doc('<enu>1</enu><enu>2 3</enu>'), tag='union-with-list-member'),
+            Doc('si-bad-enu', self._doc('<enu>2 3</enu><enu>3 2</enu><enu>4</enu>'), 'fault:lexical', tag='union-with-list-member'),
         ]
         for d in docs:
             d.prefix_dep = True      # <qn> holds a QName
